@@ -85,7 +85,10 @@ def has_nested_csum(m):
     """True iff some checksummed rule has another checksummed rule in its dependency closure (D12 shape)."""
     def stamped(t):
         r = m.rule_for(t)
-        return r is not None and any(s[0] in ("stamp", "stampif", "stampsrc") for s in m.dofiles[r[0]]["body"])
+        rec = m.rec.get(t)
+        # (a target whose rule stopped calling redo-stamp is still RECORDED as checksummed until it is built again)
+        return (r is not None and any(s[0] in ("stamp", "stampif", "stampsrc", "stampgate") for s in m.dofiles[r[0]]["body"])) \
+            or (rec is not None and rec.csum is not None)
     for t in m.targets:
         if stamped(t):
             for q in m.closure(t):
@@ -435,6 +438,26 @@ class HistoryRunner:
                 disk.take_trace()
                 self.out.log.append({"killed": argv, "cwd": cwd, "n": cenv["RV_SHIM_KILL_AT"],
                                      "victim": cenv["RV_SHIM_VICTIM"], "rc": res.rc})
+                if res.rc == 0 and ok_model and "content" in self.checks and not res.timed_out:
+                    # one redo process died, yet the command claims success: then what it was asked for must be
+                    # right ("whenever redo-ifchange T exits 0 ...") -- the model has evaluated the complete command
+                    self.out.events["crash:command-exited-0-although-a-redo-process-was-killed(contents judged)"] += 1
+                    clos = set()
+                    for t in targets:
+                        clos |= set(q for q in m.closure(t) if q in m.targets)
+                    bad = []
+                    for p_ in sorted(clos):
+                        f_ = m.fs.get(p_)
+                        want = f_.data if f_ is not None else None
+                        got = disk.read(p_)
+                        if got != want:
+                            bad.append({"path": p_, "got": _short(got), "want": _short(want)})
+                    if bad:
+                        c03 = "csum" in self.checks and m.oob_used
+                        self.violate("C03" if c03 else "C01", "not-forwarded" if c03 else "stale-content",
+                                     {"cmd": res.brief(), "bad": bad[:5], "killed_before_call": cenv["RV_SHIM_KILL_AT"],
+                                                              "victim": cenv["RV_SHIM_VICTIM"]},
+                                     {"symptom": "stale", "oob": bool(m.oob_used), "exit_0_with_killed_process": True})
                 return
         lines = disk.take_trace()
         ex, calls, args, exits = parse_trace(lines)
@@ -660,8 +683,11 @@ class HistoryRunner:
         if conc and len(conc) == len(bad):
             # the file was put there by hand WHILE a build of that name ran (redo cannot tell this from a script
             # writing $1): overwritten by that very command, or only by a later one?
+            # (if one of them was replaced during an EARLIER command, that is known finding D28 at work -- redo took
+            # the hand-made file for its own product and runs the script again -- and this command is off the model
+            # from there on: "same command" only if every affected file was replaced during this very command)
             return {"symptom": "user-file-changed", "concurrent_mod": True,
-                    "same_command": any(p_ in self._mods_this_cmd for p_ in conc)}
+                    "same_command": all(p_ in self._mods_this_cmd for p_ in conc)}
         return {"symptom": "user-file-changed"}
 
     def stamped(self, t):
